@@ -452,7 +452,7 @@ def lceil_lemma(unused: bool) -> bool:
         res, line = _lemma_result()
         try:
             import json as _json
-            ev = os.path.join(os.path.dirname(os.path.dirname(os.path.abspath(__file__))), "evidence")
+            ev = os.path.join(os.path.dirname(os.path.dirname(os.path.abspath(__file__))), "evidence", "aux")
             os.makedirs(ev, exist_ok=True)
             with open(os.path.join(ev, "C15-lceil.json"), "w") as f:
                 _json.dump(res, f, indent=1)
